@@ -4,3 +4,7 @@ include!("../../shared/arith_ops.rs");
 pub fn run(st: usize, lay_idx: u16, op: u16, a: u128, b: u128, outs: &mut Outs) {
     lay::with_layout_sb!(lay_idx as usize, F => run_signed::<F>(st, op, a, b, outs))
 }
+
+pub fn run_program(st: usize, lay_idx: u16, a: u128, prog: &[(u16, u128, u128)], s: &str, outs: &mut Outs) {
+    lay::with_layout_sb!(lay_idx as usize, F => run_prog_signed::<F>(st, a, prog, s, outs))
+}
